@@ -37,7 +37,7 @@ def parseAct (f : Str) : Option QAct :=
   | _ => none
 
 def parsePayload (p : Str) : Payload :=
-  if p = str "e" then .empty else if p = str "b" then .bad else if p = str "n" then .noQuery else .ok
+  if p = str "e" then .empty else if p = str "b" ∨ p = str "t" ∨ p = str "u" then .bad else if p = str "n" then .noQuery else .ok
 
 def encReply : Reply → String
   | .pre ms => s!"pre:{ms}"
